@@ -172,7 +172,9 @@ def crashAt (es : List Effect) (d : Disk) (k : Nat) (half : Bool) : Disk :=
 
 inductive Variant
   | asIs         -- historical write_toml (before ba0d066): open("./restart.toml","wb") truncates in place
-  | repaired     -- the code now: write ./restart.toml.tmp, then os.replace
+  | repaired     -- the code now: write ./restart.toml.tmp, close it, then os.replace
+  | renamedOpen  -- os.replace while the temp file is still open: its content is still in Python's
+                 -- write buffer, it reaches the (renamed) file only at close/flush
 deriving DecidableEq, Repr
 
 structure Cfg where
@@ -314,6 +316,7 @@ def restartEffs (v : Variant) (r : Rec) : List Effect :=
   match v with
   | .asIs => [.rOpen false, .rWrite false r]
   | .repaired => [.rOpen true, .rWrite true r, .rRename]
+  | .renamedOpen => [.rOpen true, .rRename, .rWrite false r]
 
 /-- the record `write_toml` dumps at the end of the step -/
 def newRec (m : Mem) (c : Choice) : Rec :=
@@ -440,10 +443,14 @@ def restartIdx (cfg : Cfg) (m : Mem) (c : Choice) (d : Disk) : Nat :=
 def dataIdx (cfg : Cfg) (m : Mem) (c : Choice) (d : Disk) : Nat :=
   (accLoop cfg c.accs m.trajNum m.olds d).length
 
-/-- crash points at which restart.toml is truncated / half written (as-is variant):
-    strictly after the open, before the completed write -/
+/-- crash points at which restart.toml is empty / half written: as-is variant strictly after
+    the truncating open and before the completed write; renamed-while-open variant after the rename
+    and before the flush at close; never for the repaired variant -/
 def inTruncWindow (cfg : Cfg) (m : Mem) (c : Choice) (d : Disk) (k : Nat) : Bool :=
-  cfg.variant == .asIs && k == restartIdx cfg m c d + 1
+  match cfg.variant with
+  | .asIs => k == restartIdx cfg m c d + 1
+  | .renamedOpen => k == restartIdx cfg m c d + 2
+  | .repaired => false
 
 /-- crash points at which a row of the replaced path is (partly) in the data file while the
     restart file still is the old one -/
